@@ -69,6 +69,13 @@ pub fn prime(m: &mut Machine) {
         let c = case_from_words("prime", "", &[0x5700], regs, 0xffc000, &pokes);
         let _ = exec_case(m, &c);
     }
+    // an instruction fetch from unmapped memory (an error, reported and over): nothing of it may linger
+    {
+        let mut regs = Regs::default();
+        regs.er[7] = 0xffef00;
+        let c = case_from_words("prime", "", &[], regs, 0x200000, &[]);
+        let _ = exec_case(m, &c);
+    }
     for (a, v) in [(0xffff84u32, 0x10u8), (0xffff80, 0x01)] {
         let o = m.bus_write(a, v);
         m.commit(&o.wr);
